@@ -17,8 +17,20 @@ ENGINES = {
  "fs": dict(path="spec/Fs.tla spec/MCFs.tla lib/fs_engine.py harness/src/cases.rs",
             props=["C06", "C07", "C08", "C09", "C10"],
             kind="tree-level TLA+ model of the four modes over every abstract state of the generated paths (absent / built(versions, option) / garbage); TLC checks the property statements on every edge and prints the edges, each of which is materialised on disk and executed with the real code (per-transition tests), whole tree compared incl. inode/mtime and decoys"),
+ "resolve": dict(path="spec/Resolve.tla spec/MCResolve.tla lib/resolve_engine.py", props=["C11"],
+                 kind="TLA+ model of name shapes, input classification, directory scan and dependency closure evaluated by TLC on a fixed tree for every input list in bounds; every case executed for real and observed through per-source markers and tree differences"),
+ "run": dict(path="spec/RunTrace.tla spec/PpCore.tla lib/run_engine.py", props=["C17"],
+             kind="a probe shell records argv / cwd / TXTPP_FILE of every invocation during real runs; TLC validates each recorded invocation, verdict and output against PpCore.tla (RunTrace.tla)"),
+ "robust": dict(path="lib/robust_engine.py spec/Sched.tla", props=["C18"],
+                kind="TLC shows that a dying worker hangs the coordinator (necessity) and that the dependency manager's unwrap is safe; seeded hostile-input driver with the totality postcondition as only oracle"),
 }
 CHECKS = {
+ "C11": ("resolve", "model_checking", "TLC evaluates Resolve.tla (three name shapes incl. dotted stems and dot-files, look-alikes, either-name inputs, ./ and ../, absolute paths, duplicates, missing targets, directory scans with/without recursion, dependency closure in build but not in clean) for every input list of <=2 (thorough 3) of 30 expressions and prints verdict / processed set / output paths; each case is run for real", "2.5, 5 C11",
+         "fixed tree; lexical path normalisation (no symlinks, D12)", "TLA+ spec Resolve.tla evaluated by TLC on a bounded-exhaustive input space; conformance: expected processed sets and output names compared with real runs"),
+ "C17": ("run", "model_checking", "every shell invocation recorded by a probe shell in real runs (library / CLI, depth 0..3, base equal to / above / unrelated to the cwd, relative and absolute base, shell argument lists, single/multi-line commands, failing commands) is validated by TLC against the ExecRun semantics of PpCore.tla; default shell observed through pwd -P, $TXTPP_FILE, $0; exit codes; refusal to start when TXTPP_FILE is set", "2.3, 5 C17",
+         "TXTPP_FILE accepted as absolute or base-relative path", "TLC trace validation of recorded shell invocations against the TLA+ spec (RunTrace.tla over PpCore.tla)"),
+ "C18": ("robust", "exploration", "TLA+ decides only the design-level part: TLC shows on Sched.tla that a worker dying without sending hangs the coordinator (so panic-freedom of every pass is necessary) and that the dependency manager's counters stay consistent (its unwrap cannot fail); the rest is a seeded driver over hostile sources / trees / option values (thread counts 0..16, four modes, recursion, shells) through library and CLI whose oracle is totality: verdict ok or err within the watchdog, no panic, no abort", "5 C18",
+         "exploration only: absence of panics is sampled, not proved; every other check's runs are panic/hang-monitored as well", "seeded hostile-input exploration with a totality oracle; TLC on Sched.tla for the necessity argument (PanicHangs) and DepMgrConsistent"),
  "C06": ("fs", "model_checking", "TLC: VerifyExact on every edge of Fs.tla (every abstract state x inputs x option); code: every selected verify edge executed from a materialised tree (12 corruption kinds per output: byte flips first/middle/last, insert, truncations incl. inside a multi-byte char, extension, deletion, option mismatch, source edited after build), verdict and untouched outputs (bytes, inode, mtime) compared", "2.6, 3.5, 5 C06",
          "4 scenarios x 3 layouts (see evidence); fresh bytes = reference build of the same binary", "TLA+ spec Fs.tla checked with TLC; per-transition conformance tests generated from its edges"),
  "C07": ("fs", "model_checking", "TLC: CleanRemoves, CleanRestores on Fs.tla; code: every clean edge executed from every abstract pre-state, plus build/clean histories (build-clean, clean alone, clean twice, needed-clean) on projects with run directives and erroneous directives: tree after clean = tree before any build, no command executed, verdict ok", "2.6, 3.5, 5 C07",
@@ -71,6 +83,6 @@ for p in props:
                             "level_claimed": {"category": level, "text": text, "design_ref": "DESIGN.md " + ref},
                             "level_note": note, "technique": tech})
     else:
-        m["not_applicable"].append({"property_id": p, "reason": "check under construction in this session (engine not committed yet)"})
+        raise SystemExit("unclaimed property " + p)
 json.dump(m, open(os.path.join(HERE, 'MANIFEST.json'), 'w'), indent=1)
 print("claimed", [c["property_id"] for c in m["checks"]])
